@@ -160,3 +160,18 @@ def run(c):
     # `impl Readable for Vec<T>` (unbounded) must not be reachable from the decoders
     c.r4("no-unbounded-vec-read", "grin_p2p", P2P_ROOTS, {"unbounded": __import__("re").compile(r"^<alloc::vec::Vec<T> as grin_core::ser::Readable>::read$")}, {},
          floor_roots=6, floor_reach=300, asserts=(), desc="the unbounded `impl Readable for Vec<T>` is not reachable from the p2p decoders")
+
+
+def RELEASE_RULES(c):
+    """Thorough tier: the same reachability rules on facts extracted with -C overflow-checks=off -C debug-assertions=off
+    (the arithmetic the property fixes); also reports how many MIR asserts the release build keeps."""
+    c.r4("decoders-p2p", "grin_p2p", P2P_ROOTS, FORBID, ALLOW, floor_roots=6, floor_reach=300, auto=r4.auto_discharge,
+         asserts=r4.ASSERT_KINDS + ("Overflow(Add)", "Overflow(Sub)", "Overflow(Mul)", "Overflow(Shl)", "Overflow(Shr)", "OverflowNeg"),
+         desc="release semantics: no unjustified panic/alloc (nor any remaining overflow assert) reachable from the p2p decoders")
+    c.r4("decoders-core", "grin_core", CORE_ROOTS, FORBID, ALLOW, floor_roots=8, floor_reach=40, auto=r4.auto_discharge,
+         asserts=r4.ASSERT_KINDS + ("Overflow(Add)", "Overflow(Sub)", "Overflow(Mul)", "Overflow(Shl)", "Overflow(Shr)", "OverflowNeg"),
+         desc="release semantics: Merkle-proof decoders, read-time validators, segment validation")
+    c.r4("decoders-chain", "grin_chain", CHAIN_ROOTS, FORBID, ALLOW, floor_roots=6, floor_reach=150, auto=r4.auto_discharge,
+         asserts=r4.ASSERT_KINDS + ("Overflow(Add)", "Overflow(Sub)", "Overflow(Mul)", "Overflow(Shl)", "Overflow(Shr)", "OverflowNeg"),
+         desc="release semantics: segment intake")
+
